@@ -5,7 +5,7 @@ from ..index import u, call_name, call_attr, walk_local
 from .. import flow
 from ..fold import try_fold
 from ..util import stmts_with_env, calls_with_env, assignments_to, single_def, param_names
-from .common import method, guarded_by_raise, has_atom, comp_signature, comp_element, unconditional_in
+from .common import method, guarded_by_raise, raise_condition_is, has_atom, comp_signature, comp_element, unconditional_in
 
 DSSP = 'vermouth/dssp/dssp.py'
 MARTINI_SS = set('FEH123TSC')
@@ -84,6 +84,15 @@ def run(ck):
     # ---- MPT: mismatch is an error, before any assignment
     guarded_by_raise(ck, mod, ann, lambda s: isinstance(s, ast.Assign) and isinstance(s.targets[0], ast.Subscript) and 'attribute' in u(s.targets[0]),
                      has_atom('Eq', 'len(sequence)'), 'length mismatch (per molecule)', 'MPT-mismatch|annotate_residues_from_sequence', rule='MPT-mismatch')
+    # ... and it is a mismatch in *either* direction (a sequence that is too long would be cut silently by zip: a shift for whoever counted residues differently)
+    def _len_class(k):
+        if k[0] == 'Eq' and set(k[1:]) == {'len(sequence)', '1'}:
+            return 'ONE'
+        if k[0] == 'Eq' and set(k[1:]) in ({'len(sequence)', 'len(residues)'}, {'len(sequence)', 'len(list(molecule.iter_residues()))'}):
+            return 'SAME'
+        return None
+    raise_condition_is(ck, mod, ann, lambda st_, c_: True, _len_class, 'not ONE and not SAME', 'per-molecule annotation: a sequence of another length than the number of residues (and not a single element)',
+                       'DT-mismatch|annotate_residues_from_sequence', rule='DT-mismatch')
     guarded_by_raise(ck, mod, rs, lambda s: s is loop, has_atom('Eq', 'len(self.sequence)', 'sum('), 'length mismatch (system)',
                      'MPT-mismatch|run_system', rule='MPT-mismatch')
     # the documented repetition rules
